@@ -29,7 +29,7 @@ const (
 
 	// _maxPreAlloc is the most elements allocated on the word of a declared count;
 	// beyond it a list grows with the elements actually read
-	_maxPreAlloc = 1024
+	_maxPreAlloc = 64
 )
 
 func minInt(a, b int) int {
